@@ -927,8 +927,23 @@ package godi
 //@   nopanic
 //@   requires recv: o != nil
 //
+//@ func collection.rollbackTo
+//@   requires maps: regmaps(r) && 0 <= n && n <= len(r.allDescriptors)
+//@   requires tracked_nonnil: forall i int :: n <= i && i < len(r.allDescriptors) ==> r.allDescriptors[i] != nil
+//@   safety[C15,C17]
+//@   ensures[C17] build_list_truncated: len(r.allDescriptors) == n && (forall i int :: 0 <= i && i < n ==> r.allDescriptors[i] == old(r.allDescriptors)[i])
+//@   ensures[C17] lookup_only_shrinks: forall k TypeKey :: (k in r.services) ==> old(k in r.services) && r.services[k] == old(r.services[k])
+//@   ensures[C17] rolled_back_registrations_not_found: forall i int :: n <= i && i < len(old(r.allDescriptors)) ==>
+//@        !((mk("TypeKey", old(r.allDescriptors)[i].Type, old(r.allDescriptors)[i].Key) in r.services) && r.services[mk("TypeKey", old(r.allDescriptors)[i].Type, old(r.allDescriptors)[i].Key)] == old(r.allDescriptors)[i])
+//@   loop 1
+//@     invariant bounds: n - 1 <= i && i < len(r.allDescriptors) && r.allDescriptors == old(r.allDescriptors) && r.services == old(r.services) && r.groups == old(r.groups)
+//@     invariant only_shrinks: forall k TypeKey :: (k in r.services) ==> old(k in r.services) && r.services[k] == old(r.services[k])
+//@     invariant done_so_far: forall j int :: i < j && j < len(r.allDescriptors) ==>
+//@        !((mk("TypeKey", r.allDescriptors[j].Type, r.allDescriptors[j].Key) in r.services) && r.services[mk("TypeKey", r.allDescriptors[j].Type, r.allDescriptors[j].Key)] == r.allDescriptors[j])
+//
 //@ func collection.addService
 //@   safety[C15,C17]
+//@   requires tracked_nonnil: forall i int :: 0 <= i && i < len(r.allDescriptors) ==> r.allDescriptors[i] != nil
 //@   requires maps: regmaps(r) && r.analyzer != nil
 //@   ensures[C15] nil_constructor_rejected: service == nil ==> typeis(result, "*ValidationError") && as(result, "*ValidationError").Cause == ErrConstructorNil && ncalls("collection.registerDescriptor") == 0
 //@   ensures[C17] registers_in_this_collection_only: forall c int :: 0 <= c && c < ncalls("collection.registerDescriptor") ==> callarg("collection.registerDescriptor", c, 0) == r
@@ -943,22 +958,34 @@ package godi
 //@        || (ncalls("reflection.Analyzer.Analyze") == 1 && callret("reflection.Analyzer.Analyze", 0, 1) != nil)
 //@        || typeis(result, "*TypeMismatchError")
 //@        || (ncalls("collection.registerDescriptor") >= 1 && callret("collection.registerDescriptor", ncalls("collection.registerDescriptor") - 1, 0) != nil))
-//@   ensures[C17] rejected_registration_leaves_the_collection_unchanged: result != nil ==> (forall c int :: 0 <= c && c < ncalls("collection.registerDescriptor") ==> callret("collection.registerDescriptor", c, 0) != nil)
+//@   ensures[C17] rejected_registration_leaves_the_build_list_unchanged: result != nil ==> len(r.allDescriptors) == len(old(r.allDescriptors))
+//@        && (forall i int :: 0 <= i && i < len(r.allDescriptors) ==> r.allDescriptors[i] == old(r.allDescriptors)[i])
+//@   ensures[C17] partial_registrations_are_rolled_back: result != nil && ncalls("collection.registerDescriptor") >= 2 ==> ncalls("collection.rollbackTo") == 1
+//@        && callarg("collection.rollbackTo", 0, 0) == r && callarg("collection.rollbackTo", 0, 1) == len(old(r.allDescriptors))
 //@   loop 1
 //@     invariant no_registration_yet: ncalls("collection.registerDescriptor") == 0 && ncalls("reflection.Analyzer.Analyze") == 0 && ncalls("addOptions.Validate") == 0
 //@        && ncalls("newDescriptorWithAnalyzer") == 1 && callret("newDescriptorWithAnalyzer", 0, 1) == nil && ncalls("Descriptor.Validate") == 1 && callret("Descriptor.Validate", 0, 0) == nil
 //@        && descriptor != nil && descriptor.Lifetime == lifetime && options != nil && fresh(options)
 //@   loop 2
+//@     invariant build_list_grows: mark == len(old(r.allDescriptors)) && len(r.allDescriptors) >= mark && ncalls("collection.rollbackTo") == 0
+//@        && (forall i int :: 0 <= i && i < mark ==> r.allDescriptors[i] == old(r.allDescriptors)[i])
+//@        && (forall i int :: 0 <= i && i < len(r.allDescriptors) ==> r.allDescriptors[i] != nil) && regmaps(r)
 //@     invariant all_succeeded_so_far: forall c int :: 0 <= c && c < ncalls("collection.registerDescriptor") ==> callret("collection.registerDescriptor", c, 0) == nil
 //@        && callarg("collection.registerDescriptor", c, 0) == r && callarg("collection.registerDescriptor", c, 1, "*Descriptor") != nil && callarg("collection.registerDescriptor", c, 1, "*Descriptor").Lifetime == lifetime
 //@     invariant phase: ncalls("newDescriptorWithAnalyzer") == 1 && callret("newDescriptorWithAnalyzer", 0, 1) == nil && ncalls("Descriptor.Validate") == 1 && callret("Descriptor.Validate", 0, 0) == nil
 //@        && ncalls("addOptions.Validate") == 1 && callret("addOptions.Validate", 0, 0) == nil && ncalls("reflection.Analyzer.Analyze") == 1 && callret("reflection.Analyzer.Analyze", 0, 1) == nil && descriptor != nil && descriptor.Lifetime == lifetime
 //@   loop 4
+//@     invariant build_list_grows: mark == len(old(r.allDescriptors)) && len(r.allDescriptors) >= mark && ncalls("collection.rollbackTo") == 0
+//@        && (forall i int :: 0 <= i && i < mark ==> r.allDescriptors[i] == old(r.allDescriptors)[i])
+//@        && (forall i int :: 0 <= i && i < len(r.allDescriptors) ==> r.allDescriptors[i] != nil) && regmaps(r)
 //@     invariant all_succeeded_so_far: forall c int :: 0 <= c && c < ncalls("collection.registerDescriptor") ==> callret("collection.registerDescriptor", c, 0) == nil
 //@        && callarg("collection.registerDescriptor", c, 0) == r && callarg("collection.registerDescriptor", c, 1, "*Descriptor") != nil && callarg("collection.registerDescriptor", c, 1, "*Descriptor").Lifetime == lifetime
 //@     invariant phase: ncalls("newDescriptorWithAnalyzer") == 1 && callret("newDescriptorWithAnalyzer", 0, 1) == nil && ncalls("Descriptor.Validate") == 1 && callret("Descriptor.Validate", 0, 0) == nil
 //@        && ncalls("addOptions.Validate") == 1 && callret("addOptions.Validate", 0, 0) == nil && ncalls("reflection.Analyzer.Analyze") == 1 && callret("reflection.Analyzer.Analyze", 0, 1) == nil && descriptor != nil && descriptor.Lifetime == lifetime
 //@   loop 5
+//@     invariant build_list_grows: mark == len(old(r.allDescriptors)) && len(r.allDescriptors) >= mark && ncalls("collection.rollbackTo") == 0
+//@        && (forall i int :: 0 <= i && i < mark ==> r.allDescriptors[i] == old(r.allDescriptors)[i])
+//@        && (forall i int :: 0 <= i && i < len(r.allDescriptors) ==> r.allDescriptors[i] != nil) && regmaps(r)
 //@     invariant all_succeeded_so_far: forall c int :: 0 <= c && c < ncalls("collection.registerDescriptor") ==> callret("collection.registerDescriptor", c, 0) == nil
 //@        && callarg("collection.registerDescriptor", c, 0) == r && callarg("collection.registerDescriptor", c, 1, "*Descriptor") != nil && callarg("collection.registerDescriptor", c, 1, "*Descriptor").Lifetime == lifetime
 //@     invariant phase: ncalls("newDescriptorWithAnalyzer") == 1 && callret("newDescriptorWithAnalyzer", 0, 1) == nil && ncalls("Descriptor.Validate") == 1 && callret("Descriptor.Validate", 0, 0) == nil
